@@ -55,6 +55,10 @@ even when that is 0, where `Console.render` yields nothing (pre-finding F25); `f
 proposed repair `max(1, maximum)`. -/
 structure Variant where
   zeroWidthChild : Bool := true
+  /-- `Rule(align="right")` repeats `characters` `width - title - 1` TIMES instead of filling that many
+  CELLS (rule.py:98), so any multi-cell `characters` pushes the title out of the rule; `false` = the
+  proposed repair (fill exactly `width - title - 1` cells). -/
+  ruleRightRepeat : Bool := true
 deriving Repr
 
 /-- A child renderable as an oracle.
@@ -422,7 +426,7 @@ def ruleInit (cw : Char → Nat) (o : RuleOpts) : Except PyErr RuleOpts :=
 
 /-- The `Text` a rule yields: `(plain, end)` (rule.py:48-103).  `none` = a zero-width `characters`
 under substitution cannot happen (`"-"`); kept total. -/
-def ruleText (cw : Char → Nat) (env : Env) (o : RuleOpts) (w : Int) : List Char × List Char :=
+def ruleText (cw : Char → Nat) (env : Env) (v : Variant) (o : RuleOpts) (w : Int) : List Char × List Char :=
   let isascii := o.characters.all (fun c => c.toNat < 128)
   let characters := if env.asciiOnly && !isascii then ['-'] else o.characters
   let charsLen : Int := cellLen cw characters
@@ -447,12 +451,16 @@ def ruleText (cw : Char → Nat) (env : Env) (o : RuleOpts) (w : Int) : List Cha
         t ++ repStr (w - cellLen cw t) characters
       | .right =>
         let title := textTruncate cw title (w - 2) .ellipsis
-        repStr (w - cellLen cw title - 1) characters ++ [' '] ++ title
+        let sideWidth : Int := w - cellLen cw title - 1
+        let side :=
+          if v.ruleRightRepeat then repStr sideWidth characters
+          else setCellSizeI cw (repStr (sideWidth / charsLen + 1) characters) sideWidth
+        side ++ [' '] ++ title
     (setCellSizeI cw plain w, o.endS)
 
 /-- `Rule.__rich_console__` followed by the rendering of the yielded `Text`. -/
-def ruleConsole (cw : Char → Nat) (env : Env) (o : RuleOpts) (w : Int) : Option (List (Segment σ)) :=
-  let (plain, e) := ruleText cw env o w
+def ruleConsole (cw : Char → Nat) (env : Env) (v : Variant) (o : RuleOpts) (w : Int) : Option (List (Segment σ)) :=
+  let (plain, e) := ruleText cw env v o w
   textConsoleSimple cw plain e w
 
 /-! ## Bar (bar.py) and ProgressBar (progress_bar.py)
